@@ -60,7 +60,7 @@ class LogicalSolver:
         with UnitEnvironment(self.env.units):
             operators = {
                 'par': OperatorPar,        # should be the last of parenthesis operators
-                'eq': CustomEq, 'ne': OperatorNe,
+                'eq': CustomEq, 'ne': CustomNe,
                 'not': CustomNot,          # needs to be after OperatorNe
                 'le': OperatorLe, 'ge': OperatorGe,
                 'lt': OperatorLt, 'gt': OperatorGt,
@@ -75,6 +75,13 @@ class CustomEq(OperatorEq):
         # the datatypes compare with a plain bool; wrap it like the other comparisons do
         left, right = tokens.get_left(), tokens.get_right()
         tokens.put_left(BooleanType(bool(left == right)))
+
+class CustomNe(OperatorNe):
+    def operate_binary(self, tokens):
+        # text and boolean datatypes compare with a plain bool; wrap it like the other comparisons do
+        left, right = tokens.get_left(), tokens.get_right()
+        result = left != right
+        tokens.put_left(result if isinstance(result, BooleanType) else BooleanType(bool(result)))
 
 class CustomNot(OperatorNot):
     symbol: str = Sign.NEGATE
